@@ -180,3 +180,26 @@ package system
 //@   ensures E2 [C10]: ghost.lastInit != nil && errIs(ghost.lastInit, global("context.Canceled")) ==> result == nil
 //@   ensures E3 [C10]: ghost.lastInit != nil && !errIs(ghost.lastInit, global("context.Canceled")) ==> result != nil && errIs(result, ghost.lastInit)
 //@   opt safety [C10,C11]
+
+// ---------------------------------------------------------------------------
+// addresser_linux.go: the operating-system listings behind the wildcard plugins
+// (C13, C14, C15): a failed rtnetlink dump is an error, never an empty listing.
+
+//@ ghost var execErr Iface
+//@ funcfield system.addresser.execute(m, typ, flags) (msgs, err)
+//@   assigns ghost.execErr
+//@   ensures X1: ghost.execErr == err
+
+//@ func (*addresser).AddressesByIndex
+//@   requires P1: a != nil && a.execute != nil && 0 <= index && index <= 4294967295
+//@   loop 1 invariant L0: ghost.execErr == nil
+//@   assigns everything
+//@   ensures E1 [C13,C14]: ghost.execErr != nil ==> result1 != nil && len(result0) == 0
+//@   ensures E2 [C13,C14]: result1 != nil ==> result1 == ghost.execErr
+
+//@ func (*addresser).routesByIndex
+//@   requires P1: a != nil && a.execute != nil && 0 <= index && index <= 4294967295
+//@   loop 1 invariant L0: ghost.execErr == nil
+//@   assigns everything
+//@   ensures E1 [C15]: ghost.execErr != nil ==> result1 != nil && len(result0) == 0
+//@   ensures E2 [C15]: result1 != nil ==> result1 == ghost.execErr
